@@ -26,37 +26,15 @@ namespace SSVerif.TextIn
 
 /-! ## totality -/
 
-/-- **C10, totality.** On every byte string each modelled parser returns an object or an error
-kind (`fsg_model_read_s3file`, `dict_init_s3file`, `config_parse_json`, `decoder_set_align_text`,
-`decoder_add_word`, `cmn_set_repr`). -/
-theorem C10_parsers_total (phones : List (List UInt8)) (sil veclen : Nat) (defs : List CfgDef) (d : Dict)
-    (b b2 : List UInt8) :
-    ((∃ f, fsgRead b.toArray = .ok f) ∨ ∃ e, fsgRead b.toArray = .error e) ∧
-    ((∃ x, dictInit phones sil (some b.toArray) (some b2.toArray) = .ok x) ∨
-      ∃ e, dictInit phones sil (some b.toArray) (some b2.toArray) = .error e) ∧
-    ((∃ c, configParseJson defs b = .ok c) ∨ ∃ e, configParseJson defs b = .error e) ∧
-    ((∃ ws, alignWords d b = .ok ws) ∨ ∃ w, alignWords d b = .error w) ∧
-    ((∃ r, addWord phones d b b2 = .ok r) ∨ ∃ e, addWord phones d b b2 = .error e) ∧
-    ((∃ ms, cmnSet veclen b = some ms) ∨ cmnSet veclen b = none) := by
-  refine ⟨?_, ?_, ?_, ?_, ?_, ?_⟩
-  · cases h : fsgRead b.toArray with
-    | ok o => exact .inl ⟨o, rfl⟩
-    | error e => exact .inr ⟨e, rfl⟩
-  · cases h : dictInit phones sil (some b.toArray) (some b2.toArray) with
-    | ok o => exact .inl ⟨o, rfl⟩
-    | error e => exact .inr ⟨e, rfl⟩
-  · cases h : configParseJson defs b with
-    | ok o => exact .inl ⟨o, rfl⟩
-    | error e => exact .inr ⟨e, rfl⟩
-  · cases h : alignWords d b with
-    | ok o => exact .inl ⟨o, rfl⟩
-    | error e => exact .inr ⟨e, rfl⟩
-  · cases h : addWord phones d b b2 with
-    | ok o => exact .inl ⟨o, rfl⟩
-    | error e => exact .inr ⟨e, rfl⟩
-  · cases h : cmnSet veclen b with
-    | some o => exact .inl ⟨o, rfl⟩
-    | none => exact .inr rfl
+/-! **Totality is by construction, not a theorem.**  Every parser of `Model/Text*.lean` is a total
+Lean function defined by structural or well-founded recursion (`termination_by` with a proved
+measure) — no fuel parameter in `TextIn`/`TextFsg`/`TextDict`/`TextJson`, no `partial`, no
+`unsafe` (the forbidden-construct grep of the check) — so it returns `ok`/`error` on every byte
+string because it type-checks.  A statement "the result is `ok _` or `error _`" is true of every
+value of the type and is deliberately **not** listed as a property theorem (audit item A3; the
+former `C10_parsers_total` was removed).  What is proved about termination with content is the
+iteration bound `C10_line_loop_bounded` below, and for the fuel-indexed loops of
+`Model/TextSvspec.lean` that the fuel is never observed (`C10_svspec_fuel_never_observed`). -/
 
 /-- **C10, progress.** The line loop runs at most once per remaining byte: `s3file_nextline`
 strictly advances `s->ptr` and never beyond `end`. -/
@@ -203,7 +181,10 @@ example : (match fsgRead "FSG_BEGIN x\nN 2\nS 0\nF 1\nT 0 4294967297 0.5 go".toU
 example : errOf (fsgRead "N 2\nS 0\n".toUTF8.data) = some .beginMissing := by decide +kernel
 -- keywords match by prefix (`strncmp(word, KW, ptr - word)`): the line `F 1` is an `FSG_BEGIN` line
 example : errOf (fsgRead "N 2\nS 0\nF 1\n".toUTF8.data) = some .nStatesMissing := by decide +kernel
-example : errOf (fsgRead "FSG_BEGIN x\nN 4294967295\nS 0\n".toUTF8.data) = some .allocFail := by decide +kernel
+-- a state count beyond int32: refused as malformed where the reader tests the bound (D88), otherwise truncated (here to -1)
+example : errOf (fsgRead "FSG_BEGIN x\nN 4294967295\nS 0\n".toUTF8.data) =
+    some (if Generated.TextIn.fsgNStatesMax.isSome then .nStatesMalformed else .allocFail) := by decide +kernel
+example : nStatesTooBig 5 = false := by decide +kernel
 
 -- the probability boundary: 1 + 2^-24 rounds to 1.0f (accepted), 1.0000002 does not; 1e-46 rounds to 0
 example : probAccept (atofLit "1.000000059604644775390625".toUTF8.data.toList) = true := by decide +kernel
